@@ -10,7 +10,7 @@ from collections import Counter
 
 from . import seams
 from . import world
-from .adversary import Adversary, Spy, Ticker, act, KIND_OF_CLASS
+from .adversary import Adversary, Spy, Ticker, Ranker, act, KIND_OF_CLASS
 from .fingerprint import canon_report, sim_fp, digest
 
 from nrel.hive.app import hive_cosim
@@ -162,6 +162,8 @@ def build_generators(plan, cfg, run, spy_log):
             cells = sorted({v["cell"] for v in plan["spec"]["vehicles"]} | {r["d"] for r in plan["spec"]["requests"]}
                            | {s["cell"] for s in plan["spec"]["stations"]})
             gens.append(Adversary(idx, plan, rng, rs.get("adv", {}), cells))
+        elif name == "ranker":
+            gens.append(Spy(Ranker(), spy_log))
         elif name == "ticker":
             cells = tuple(sorted({r["d"] for r in plan["spec"]["requests"]} | {v["cell"] for v in plan["spec"]["vehicles"]}))
             gens.append(Ticker(cells=cells, count=0, period=rs.get("ticker_period", 2)))
